@@ -100,6 +100,8 @@ package middlewares
 //@ func DecodeURL$1
 //@   at-call fiber.Ctx.Path {C04} [only-dot-free-paths-are-installed] when len($1) > 0 :: requires !backend.HasDotSegment($1[0])
 //@   at-call fiber.Ctx.Path {C03,C04,C10} [no-path-with-an-empty-segment-is-installed] when len($1) > 0 :: requires !backend.HasEmptySegment(strings.TrimPrefix($1[0], "/"))
+// C07/C20: key names are UTF-8 (a name with other bytes cannot be listed, and breaks the listing of its bucket)
+//@   at-call fiber.Ctx.Path {C07,C20} [only-utf8-paths-are-installed] when len($1) > 0 :: requires utf8.ValidString($1[0])
 //@   at-call fiber.Ctx.Next {C04} [ids-are-single-path-elements] requires backend.IsPathComponent(ctx.Query("versionId")) && backend.IsPathComponent(ctx.Query("uploadId"))
 //@   at-call fiber.Ctx.Next {C04} [next-only-after-installing-the-decoded-path] requires called("fiber.Ctx.Path")
 // C08: an upload id that is given is not empty (the empty id is the directory of all uploads of the key)
